@@ -174,7 +174,7 @@ Example C03_example_hyps :
   /\ exists bs, bw_write ieee ex_opts ex_sizes ex_inp = Ok bs /\ Nlen bs < U64 /\ Nlen bs = 734.
 Proof.
   split; [unfold opts_ok; cbn; lia|]. split.
-  - unfold input_ok. split; [cbn; repeat constructor; cbn; intuition discriminate|].
+  - unfold input_ok.
     split; [repeat constructor; cbn; try lia; repeat constructor; discriminate|].
     split; [vm_compute; reflexivity|]. split; repeat constructor; cbn; unfold U32; lia.
   - split; [reflexivity|]. eexists. split; [vm_compute; reflexivity|]. split; vm_compute; reflexivity.
